@@ -13,6 +13,8 @@ import (
 	"strings"
 	"time"
 
+	"github.com/echovault/sugardb/internal/config"
+	"github.com/echovault/sugardb/internal/constants"
 	"github.com/echovault/sugardb/internal/modules/set"
 	"github.com/echovault/sugardb/internal/modules/sorted_set"
 	vr "github.com/echovault/sugardb/internal/verifrt"
@@ -338,3 +340,120 @@ func Verif_C09_Rewrite_ConcurrentWriter() {
 	vr.Assert(ok, tag+".restore_equals_acknowledged_dataset")
 	vr.Reach("end")
 }
+
+// Verif_C09_Rewrite_AfterShrinking: a rewrite after the dataset has shrunk — keys deleted, a database
+// flushed, every database emptied — since the previous rewrite. What a restart serves is the dataset
+// at the last rewrite plus the later writes: nothing deleted comes back from an older preamble.
+func Verif_C09_Rewrite_AfterShrinking() {
+	tag := "C09.rewrite_after_shrinking"
+	logF := &c09File{appendMode: true}
+	preF := &c09File{}
+	s := verifAOFServer(logF, preF, "always")
+	v := vr.TokN("v", 3)
+	_ = s.SelectDB(0)
+	c05Run(s, "SET", "k1", v)
+	if vr.Choose("second_db", 2) == 1 {
+		_ = s.SelectDB(5)
+		c05Run(s, "SET", "k2", v)
+		_ = s.SelectDB(0)
+	}
+	vr.Assert(c05Run(s, "REWRITEAOF") == "+OK\r\n", tag+".first_rewrite_replies_ok")
+	switch vr.Choose("shrink", 5) {
+	case 0:
+		c05Run(s, "DEL", "k1")
+	case 1:
+		c05Run(s, "FLUSHALL")
+	case 2:
+		c05Run(s, "FLUSHDB")
+	case 3:
+		c05Run(s, "DEL", "k1")
+		_ = s.SelectDB(5)
+		c05Run(s, "DEL", "k2")
+		_ = s.SelectDB(0)
+	case 4:
+		c05Run(s, "RENAME", "k1", "k3")
+	}
+	vr.Assert(c05Run(s, "REWRITEAOF") == "+OK\r\n", tag+".second_rewrite_replies_ok")
+	if vr.Choose("write_after", 2) == 1 {
+		c05Run(s, "SET", "k4", "after")
+	}
+	dbs := []int{0, 5}
+	want := c07View(s, dbs, "k1", "k2", "k3", "k4")
+	s2 := verifAOFServer(logF.image("log"), preF.image("preamble"), "always")
+	_ = s2.aofEngine.Restore()
+	vr.Assert(c07View(s2, dbs, "k1", "k2", "k3", "k4") == want, tag+".restore_equals_acknowledged_dataset")
+	vr.Reach("end")
+}
+
+// ---- the same through the real constructor: its own wiring of the AOF engine (state copy, key
+// restore and replay closures) over the data directory (modelled file system; a temporary directory
+// natively) ----
+
+func c09RealServer(dir string, restore bool) *SugarDB {
+	s, err := NewSugarDB(WithConfig(config.Config{
+		DataDir:           dir,
+		EvictionPolicy:    constants.NoEviction,
+		RestoreAOF:        restore,
+		AOFSyncStrategy:   "always",
+		SnapShotThreshold: 1000,
+	}))
+	if err != nil {
+		panic("verif: constructor failed: " + err.Error())
+	}
+	return s
+}
+
+// c09RealScenario: writes in database 0 (and optionally 5), REWRITEAOF, a change that may shrink the
+// dataset (also to nothing), optionally a second REWRITEAOF and a later write, then a restart with AOF
+// restore through the real constructor: the restarted server shows what the first one showed.
+func c09RealScenario(tag string) {
+	dir := vr.FSReset()
+	s := c09RealServer(dir, false)
+	v := "val"
+	_ = s.SelectDB(0)
+	c05Run(s, "SET", "k1", v)
+	c05Run(s, "HSET", "h", "f", v)
+	if vr.Choose("second_db", 2) == 1 {
+		_ = s.SelectDB(5)
+		c05Run(s, "SET", "k2", v)
+		_ = s.SelectDB(0)
+	}
+	if vr.Choose("first_rewrite", 2) == 1 {
+		vr.Assert(c05Run(s, "REWRITEAOF") == "+OK\r\n", tag+".first_rewrite_replies_ok")
+	}
+	switch vr.Choose("change", 7) {
+	case 0:
+		c05Run(s, "DEL", "k1")
+	case 1:
+		c05Run(s, "FLUSHALL")
+	case 2:
+		c05Run(s, "FLUSHDB")
+	case 3:
+		c05Run(s, "DEL", "k1", "h")
+		_ = s.SelectDB(5)
+		c05Run(s, "DEL", "k2")
+		_ = s.SelectDB(0)
+	case 4:
+		c05Run(s, "RENAME", "k1", "k3")
+	case 5:
+		c05Run(s, "PEXPIREAT", "k1", "4000000000000")
+	case 6:
+		c05Run(s, "APPEND", "k1", "+more")
+	}
+	if vr.Choose("second_rewrite", 2) == 1 {
+		vr.Assert(c05Run(s, "REWRITEAOF") == "+OK\r\n", tag+".second_rewrite_replies_ok")
+	}
+	if vr.Choose("write_after", 2) == 1 {
+		_ = s.SelectDB(5)
+		c05Run(s, "SET", "k4", "after")
+		_ = s.SelectDB(0)
+	}
+	dbs := []int{0, 5}
+	want := c07View(s, dbs, "k1", "k2", "k3", "k4", "h")
+	s2 := c09RealServer(dir, true)
+	vr.Assert(c07View(s2, dbs, "k1", "k2", "k3", "k4", "h") == want, tag+".restart_serves_the_acknowledged_dataset")
+	vr.Reach("end")
+}
+
+func Verif_C09_RealServer_RewriteAndRestart() { c09RealScenario("C09.real_server") }
+func Verif_C02_RealServer_RewriteAndRestart() { c09RealScenario("C02.real_server") }
